@@ -16,6 +16,12 @@ CHECKS["C03"] = ("exploration", "bounded-exhaustive enumeration: all single stru
 CHECKS["C10"] = ("translation_validation", "exhaustive enumeration of boolean expression programs up to a size bound (all shapes, all truth assignments), all short case lists, complete leaf-semantics tables and threshold boundary scans; each program compiled by the real parser and executed by the real layout, compared with the recursive reading of the source s-expression",
   "For every enumerated program text the compiled switch/fork behaves as the written expression under every truth assignment; decision boundaries of key-timing lie within the documented resolution. Exhaustive over the stated program space.",
   "truth assignments realised through held keys; expression shapes beyond the node bound (except single-path chains to the maximum depth) not enumerated", "DESIGN.md §4 C10")
+CHECKS["C04"] = ("model_checking", "bounded-exhaustive explicit-state exploration of the real code in lock-step with a reference model (LayeredKeymap): all 10^4 configs of a fragment menu over 2 layers x 2 keys + curated multi-layer configs, all physically consistent histories of D steps with gaps {0,1,2}; event-by-event trace equality with tick stamps",
+  "Every explored execution of the real pipeline produces exactly the output trace of the reference layered-keymap model. Exhaustive over the stated config universe and depth.",
+  "fragment only; < 32 pending events; intra-tick order of the model follows the documented press/release diffing", "DESIGN.md §4 C04")
+CHECKS["C05"] = ("model_checking", "bounded-exhaustive exploration of the real code: every physically consistent schedule of N events with inter-event gaps from {0,1,H-1,H,H+1} on every tap-hold variant x timeout x tap-repress window x concurrent-tap-hold config (plus a two-tap-hold family), each execution checked against the TapHoldSpec reference (decision kind + tick), exactly-one-decision and order-preservation invariants",
+  "No explored schedule produces zero or two decisions for a press, loses or reorders a buffered key, or decides a kind/tick different from the documented triggers. Exhaustive over the stated schedule space.",
+  "timing convention pinned in the rule text; same-millisecond trigger/own-release coincidences and +-1 tick around the tap-repress window are don't-cares", "DESIGN.md §4 C05")
 NOT_YET = {}
 props = [json.loads(l) for l in open('/verif/properties.jsonl')]
 hooks_commits = subprocess.run(["git","-C","/repo","log","--format=%h %s"],capture_output=True,text=True).stdout.splitlines()
